@@ -110,6 +110,19 @@ theorem tie_command_giver_stack : Gen.C05.cgStackUsers = 1 ∧ Gen.C05.cgStackUn
 theorem tie_callback_handlers :
     ∀ f ∈ ["f_unique_array", "f_sort_array", "f_unique_mapping", "destruct_object"], (f, true) ∈ Gen.C05.callbackSites := by decide
 
+/-- catch_value is a global that every catch() run by the master's error handler overwrites: error_handler assigns the
+    message to it only after that handler has returned (the model's `raise`: `runHandler … true`, THEN `catchValue := .msg msg`) -/
+theorem tie_catch_value_order : Gen.C05.errorHandlerSetsCatchValueAfterHandler = true := by decide
+
+/-- the model's `raise` sets catch_value after the handler, in the state the handler returned -/
+theorem raise_sets_catch_value_after_handler (msg : String) (m m' : M)
+    (hc : catchable (resetGuards m) = true) (hm : m.inMudlibHandler = false)
+    (hh : runHandler msg true { resetGuards m with inMudlibHandler := true } = .ok m') :
+    raise msg m = longjmp { m' with inMudlibHandler := false, catchValue := .msg msg } := by
+  have hm' : (resetGuards m).inMudlibHandler = false := hm
+  simp only [raise, hc, hm', ↓reduceIte, Bool.false_eq_true]
+  rw [hh]
+
 /-- the recovery points of backend.c have the shape `runBackend` / the sweep ops mirror; error_handler switches the
     heart beat off last (the model's `hbOffStep` sits in the same three branches) -/
 theorem tie_backend_shapes :
